@@ -6,6 +6,7 @@ open Bool
 open Datatypes
 open Json
 open List
+open NodeInd
 open Options
 open OutViews
 open Plain
